@@ -42,6 +42,12 @@ def scenarios() -> list[dict]:
          "inputs": [["a", arr(["@p", "@p", "@q"])], ["b", arr(["@r", "@r"])]]},
         {"name": "chain", "desc": {"funcs": [fn("f", ["s"], ["y"], None), fn("g", ["y", "s"], ["w"], None)]},
          "inputs": [["s", {"f": "@s", "a": []}]]},
+        # a mapped consumer that takes a WHOLE mapped array through a parameter its MapSpec does not list
+        {"name": "mapped-reducer", "desc": {"funcs": [fn("f", ["a"], ["y"], {"ins": [{"name": "a", "axes": ["i"]}],
+                                                                             "outs": [{"name": "y", "axes": ["i"]}]}),
+                                                      fn("g", ["y", "b"], ["w"], {"ins": [{"name": "b", "axes": ["j"]}],
+                                                                                  "outs": [{"name": "w", "axes": ["j"]}]})]},
+         "inputs": [["a", arr(["@p", "@q"])], ["b", arr(["@r", "@r", "@s"])]]},
         # two functions with the SAME Python __name__ (factory-made closures) and equal keyword arguments
         {"name": "same-pyname", "desc": {"funcs": [dict(fn("f", ["a"], ["y"], {"ins": [{"name": "a", "axes": ["i"]}],
                                                                                 "outs": [{"name": "y", "axes": ["i"]}]}), pyname="step"),
